@@ -496,9 +496,22 @@ pub fn oracle_min_receive(c: &PuCtx, rec: &mut Rec) {
     if c.post_malformed() {
         return;
     }
-    if let PuOp::Route { hops, min: Some(m), .. } = c.op {
+    if let PuOp::Route { u, hops, amt, min: Some(m), recv, .. } = c.op {
+        // whatever the route looks like (pools may be visited twice): if it executed, the receiver got at least minimum_receive
+        if c.out.is_ok() {
+            let r = recv.unwrap_or(*u);
+            let (first, last) = (&hops[0].0, &hops.last().unwrap().1);
+            let got = c.delta(r, last) + if r == *u && last == first { *amt as i128 } else { 0 };
+            rec.count("c13_routes_with_minimum_executed");
+            if got < *m as i128 {
+                rec.viol("C13_minimum_receive_not_delivered", format!("{:?}: executed but delivered {got} < minimum_receive {m}", c.op));
+            }
+        }
         let mut seen = std::collections::BTreeSet::new();
         if !hops.iter().all(|h| seen.insert(h.2.clone())) {
+            if !c.out.is_ok() && !c.storage_unchanged {
+                rec.viol("C13_failed_route_changed_state", format!("{:?}", c.op));
+            }
             return;
         }
         if let Some(Ok(q)) = &c.quote.route {
